@@ -7,6 +7,11 @@ Export ListNotations.
 
 Notation str := (list N).
 
+(* linear-time reverse (List.rev is quadratic); equal to List.rev by [frev_rev] *)
+Definition frev {A} (l : list A) : list A := rev_append l [].
+Lemma frev_rev {A} (l : list A) : frev l = rev l.
+Proof. unfold frev. symmetry. apply rev_alt. Qed.
+
 (* Coq string literal -> code-point list (ASCII only; used for keywords). *)
 Definition lit (x : string) : str :=
   map (fun a => N_of_ascii a) (list_ascii_of_string x).
